@@ -418,170 +418,223 @@ def readFrame (s : State) (k : Key) (p : PendRead) (f : RFrame) : State :=
     let s2 := if restData = [] then s1.release f else s1
     if p'.got.length = p'.want then finishRead s2 k p' else s2
 
+/-- one step of `process_inbound_frames` -/
+def stepPump (s : State) : Option State :=
+  if s.dead.isSome then none else
+  match s.cur with
+  | .idle =>
+    match s.rx with
+    | [] => if s.rxEof then some { s with dead := some .closed } else none
+    | f :: rest =>
+      -- header read (2 bytes)
+      let s := { s with rx := rest, rxDone := s.rxDone ++ [f], pulled := s.pulled + 2 }
+      match hdrSenderConn f.hdr with
+      | none => some { s with dead := some .panic }     -- unreachable!("bad StreamKind")
+      | some senderConn =>
+        -- a frame sent by the peer's ACCEPT end belongs to one of our CONNECT streams, and vice versa
+        let k : Key := ⟨!senderConn, hdrId f.hdr⟩
+        if !k.valid s then some { s with dead := some .protocol }     -- "bad stream id"
+        else match hdrFK f.hdr with
+          | none => some { s with dead := some .protocol }            -- "invalid frame kind"
+          | some .data =>
+            -- length read (2 bytes); `while length > 0`
+            let s := { s with pulled := s.pulled + 2 }
+            if f.data = [] then some s else some { s with cur := .dataCount k f.data }
+          | some fk => some { s with cur := .ctrl k fk }
+  | .ctrl k fk =>
+    if s.countAvail = 0 then none else
+    some ({ s with countAvail := s.countAvail - 1, cur := .idle }.enqueue k ⟨fk, [], 0⟩)
+  | .dataCount k rem =>
+    if s.countAvail = 0 then none else
+    some { s with countAvail := s.countAvail - 1, cur := .dataSize k rem }
+  | .dataSize k rem =>
+    let size := min rem.length s.cfg.rfs
+    if s.sizeAvail < size then none else
+    let rem' := rem.drop size
+    some ({ s with sizeAvail := s.sizeAvail - size, pulled := s.pulled + size,
+                   cur := if rem' = [] then .idle else .dataCount k rem' }.enqueue k ⟨.data, rem.take size, size⟩)
+
+/-- `recv_open`, first part: `self.cache.take(); self.close_received = false;` (after the read lock came back) -/
+def stepRecvOpenStart (s : State) (k : Key) : Option State :=
+  let t := s.st k
+  if s.dead.isSome || !k.valid s || t.rphase != .waitLock || t.readHeld then none else
+  some ((s.upd k (fun t => { t with cache := none, closeRecv := false, rphase := .discard })).releaseOpt t.cache)
+
+/-- `recv_open`, the loop: `while self.recv.recv(ctx).await?.header.frame_kind() != FrameKind::OPEN {}` -/
+def stepDiscard (s : State) (k : Key) : Option State :=
+  let t := s.st k
+  if s.dead.isSome || !k.valid s || t.rphase != .discard then none else
+  match t.queue with
+  | [] => none
+  | f :: q =>
+    let taken := t.taken ++ [(f.kind, f.data)]
+    some ((s.upd k (fun t =>
+      if f.kind = .open then { t with queue := q, taken := taken, rphase := .done, sessStart := taken.length, delivered := [] }
+      else { t with queue := q, taken := taken })).release f)
+
+/-- `send_close`, first part (`send_data`), once the write lock came back -/
+def stepCloseData (s : State) (k : Key) : Option State :=
+  let t := s.st k
+  if s.dead.isSome || !k.valid s || t.mphase != .waitWrite || t.writeHeld then none else
+  if t.wbuf = [] then some (s.upd k (fun t => { t with mphase := .closing }))
+  else some ((s.upd k (fun t => { t with mphase := .closing, wbuf := [], sent := t.sent ++ t.wbuf })).emit k .data t.wbuf)
+
+/-- `send_close`, the CLOSE frame and `flush.notify_one()`; then (limiter: `Rate::INF`) on to the OPEN exchange -/
+def stepCloseFrame (s : State) (k : Key) : Option State :=
+  let t := s.st k
+  if s.dead.isSome || !k.valid s || t.mphase != .closing then none else
+  some { (s.upd k (fun t => { t with mphase := if k.conn then .wantPush else .joinA, txOpen := false,
+                                     sent := [], wlog := [] })).emit k .close [] with flushReq := true }
+
+/-- ACCEPT: `recv_open_task.join(ctx)` returns -/
+def stepJoinedA (s : State) (k : Key) : Option State :=
+  let t := s.st k
+  if s.dead.isSome || !k.valid s || t.mphase != .joinA || t.rphase != .done then none else
+  some (s.upd k (fun t => { t with mphase := .wantPush }))
+
+/-- `StreamQueue::push`: `self.send.send(ctx, ReservedStream(send))` -/
+def stepPush (s : State) (k : Key) : Option State :=
+  let t := s.st k
+  if s.dead.isSome || !k.valid s || t.mphase != .wantPush then none else
+  match capOfId (s.rng k.conn) k.id with
+  | none => none
+  | some cap =>
+    some { s.upd k (fun t => { t with mphase := .pushed }) with
+           qPushed := fun c x => if c = k.conn ∧ x = cap then s.qPushed c x ++ [k.id] else s.qPushed c x }
+
+/-- `StreamQueue::reserve` + `ReservedStream::open` meet `push`: oldest waiting application call, oldest pushed stream -/
+def stepPop (s : State) (conn : Bool) (cap : Nat) : Option State :=
+  if s.dead.isSome then none else
+  match s.qWait conn cap, s.qPushed conn cap with
+  | slot :: ws, id :: ids =>
+    some { s.upd ⟨conn, id⟩ (fun t => { t with mphase := .reserved slot }) with
+           qWait := fun c x => if c = conn ∧ x = cap then ws else s.qWait c x,
+           qPushed := fun c x => if c = conn ∧ x = cap then ids else s.qPushed c x }
+  | _, _ => none
+
+/-- `send_open`; for an ACCEPT stream the transient stream is handed over right away -/
+def stepSendOpen (s : State) (k : Key) : Option State :=
+  let t := s.st k
+  if s.dead.isSome || !k.valid s then none else
+  match t.mphase with
+  | .reserved slot =>
+    let s1 := { (s.upd k (fun t => { t with txOpen := true, sent := [], wlog := [] })).emit k .open [] with flushReq := true }
+    if k.conn then some (s1.upd k (fun t => { t with mphase := .joinC slot }))
+    else some (handover s1 k slot)
+  | _ => none
+
+/-- CONNECT: `recv_open_task.join(ctx)` returns; hand-over -/
+def stepJoinedC (s : State) (k : Key) : Option State :=
+  let t := s.st k
+  if s.dead.isSome || !k.valid s || t.rphase != .done then none else
+  match t.mphase with
+  | .joinC slot => some (handover s k slot)
+  | _ => none
+
+def stepDoFlush (s : State) : Option State :=
+  if s.dead.isSome || !s.flushReq then none else
+  some { s with flushReq := false, flushed := s.out.length }
+
+/-- application: `queue.open(ctx)` -/
+def stepAppOpen (s : State) (slot : Nat) (conn : Bool) (cap : Nat) : Option State :=
+  if s.slots slot != .free || (rangeOfCap (s.rng conn) cap).isNone then none else
+  some { s.setSlot slot (.waiting conn cap) with
+         qWait := fun c x => if c = conn ∧ x = cap then s.qWait c x ++ [slot] else s.qWait c x,
+         slotList := s.slotList ++ [slot] }
+
+/-- application: `read.read_exact(ctx, &mut Buffer::new(n))` starts -/
+def stepAppRead (s : State) (slot n : Nat) : Option State :=
+  match s.slots slot with
+  | .held k true _ =>
+    if (s.st k).pendR.isSome then none else
+    some (s.upd k (fun t => { t with pendR := some ⟨slot, n, []⟩ }))
+  | _ => none
+
+/-- one iteration of the loop of `ReadStream::read_exact` -/
+def stepReadStep (s : State) (k : Key) : Option State :=
+  let t := s.st k
+  if !k.valid s then none else
+  match t.pendR with
+  | none => none
+  | some p =>
+    if t.closeRecv then some (finishRead s k p) else
+    match t.cache with
+    | some f => some (readFrame (s.upd k (fun t => { t with cache := none })) k p f)
+    | none =>
+      match t.queue with
+      | f :: q => some (readFrame (s.upd k (fun t => { t with queue := q, taken := t.taken ++ [(f.kind, f.data)] })) k p f)
+      | [] => if s.dead.isSome then some (finishRead s k p) else none   -- "Transport termination is equivalent to EOS"
+
+/-- application: `write.write_all(ctx, bytes)` starts -/
+def stepAppWrite (s : State) (slot : Nat) (bytes : List Nat) : Option State :=
+  match s.slots slot with
+  | .held k _ true =>
+    if (s.st k).pendW.isSome then none else
+    some (s.upd k (fun t => { t with pendW := some ⟨slot, bytes⟩, wlog := t.wlog ++ bytes }))
+  | _ => none
+
+/-- one iteration of the loop of `WriteStream::write_all` -/
+def stepWriteStep (s : State) (k : Key) : Option State :=
+  let t := s.st k
+  if !k.valid s then none else
+  match t.pendW with
+  | none => none
+  | some p =>
+    if p.rest = [] then some ((s.upd k (fun t => { t with pendW := none })).log (.wrote p.slot true)) else
+    -- `if self.0.buffer.capacity() == 0 { self.0.send_data(ctx).await?; }`
+    if t.wbuf.length = s.cfg.wfs ∧ t.wbuf ≠ [] then
+      if s.dead.isSome then some ((s.upd k (fun t => { t with pendW := none })).log (.wrote p.slot false))
+      else some ((s.upd k (fun t => { t with wbuf := [], sent := t.sent ++ t.wbuf })).emit k .data t.wbuf)
+    else
+      -- `offset += self.0.buffer.push(&buf[offset..])`
+      let n := min (s.cfg.wfs - t.wbuf.length) p.rest.length
+      if n = 0 then none      -- write_frame_size = 0: the Rust loop spins forever without making progress
+      else some (s.upd k (fun t => { t with wbuf := t.wbuf ++ p.rest.take n, pendW := some { p with rest := p.rest.drop n } }))
+
+/-- application: `write.flush(ctx)`: `send_data` + `flush.notify_one()` -/
+def stepAppFlush (s : State) (slot : Nat) : Option State :=
+  match s.slots slot with
+  | .held k _ true =>
+    let t := s.st k
+    if t.pendW.isSome then none else
+    if t.wbuf = [] then some ({ s with flushReq := true }.log (.wrote slot true))
+    else if s.dead.isSome then some (s.log (.wrote slot false))
+    else some ({ (s.upd k (fun t => { t with wbuf := [], sent := t.sent ++ t.wbuf })).emit k .data t.wbuf with
+                 flushReq := true }.log (.wrote slot true))
+  | _ => none
+
+/-- application: drop the read half (`r`) and / or the write half (`w`) a slot still holds -/
+def stepAppDrop (s : State) (slot : Nat) (r w : Bool) : Option State :=
+  match s.slots slot with
+  | .held k hr hw =>
+    let t := s.st k
+    if (r && hr && t.pendR.isSome) || (w && hw && t.pendW.isSome) then none else
+    some ((s.upd k (fun t => { t with readHeld := if r && hr then false else t.readHeld,
+                                       writeHeld := if w && hw then false else t.writeHeld })).setSlot slot
+           (.held k (hr && !r) (hw && !w)))
+  | _ => none
+
 def step? (s : State) : Event → Option State
   | .wireIn f => some { s with rx := s.rx ++ [f] }
   | .wireEof => some { s with rxEof := true }
-  | .pump =>
-    if s.dead.isSome then none else
-    match s.cur with
-    | .idle =>
-      match s.rx with
-      | [] => if s.rxEof then some { s with dead := some .closed } else none
-      | f :: rest =>
-        -- header read (2 bytes)
-        let s := { s with rx := rest, rxDone := s.rxDone ++ [f], pulled := s.pulled + 2 }
-        match hdrSenderConn f.hdr with
-        | none => some { s with dead := some .panic }     -- unreachable!("bad StreamKind")
-        | some senderConn =>
-          -- a frame sent by the peer's ACCEPT end belongs to one of our CONNECT streams, and vice versa
-          let k : Key := ⟨!senderConn, hdrId f.hdr⟩
-          if !k.valid s then some { s with dead := some .protocol }     -- "bad stream id"
-          else match hdrFK f.hdr with
-            | none => some { s with dead := some .protocol }            -- "invalid frame kind"
-            | some .data =>
-              -- length read (2 bytes); `while length > 0`
-              let s := { s with pulled := s.pulled + 2 }
-              if f.data = [] then some s else some { s with cur := .dataCount k f.data }
-            | some fk => some { s with cur := .ctrl k fk }
-    | .ctrl k fk =>
-      if s.countAvail = 0 then none else
-      some ({ s with countAvail := s.countAvail - 1, cur := .idle }.enqueue k ⟨fk, [], 0⟩)
-    | .dataCount k rem =>
-      if s.countAvail = 0 then none else
-      some { s with countAvail := s.countAvail - 1, cur := .dataSize k rem }
-    | .dataSize k rem =>
-      let size := min rem.length s.cfg.rfs
-      if s.sizeAvail < size then none else
-      let rem' := rem.drop size
-      some ({ s with sizeAvail := s.sizeAvail - size, pulled := s.pulled + size,
-                     cur := if rem' = [] then .idle else .dataCount k rem' }.enqueue k ⟨.data, rem.take size, size⟩)
-  | .recvOpenStart k =>
-    let t := s.st k
-    if s.dead.isSome || !k.valid s || t.rphase != .waitLock || t.readHeld then none else
-    -- `self.cache.take(); self.close_received = false;`
-    some ((s.upd k (fun t => { t with cache := none, closeRecv := false, rphase := .discard })).releaseOpt t.cache)
-  | .discard k =>
-    let t := s.st k
-    if s.dead.isSome || !k.valid s || t.rphase != .discard then none else
-    match t.queue with
-    | [] => none
-    | f :: q =>
-      let taken := t.taken ++ [(f.kind, f.data)]
-      some ((s.upd k (fun t =>
-        if f.kind = .open then { t with queue := q, taken := taken, rphase := .done, sessStart := taken.length, delivered := [] }
-        else { t with queue := q, taken := taken })).release f)
-  | .closeData k =>
-    let t := s.st k
-    if s.dead.isSome || !k.valid s || t.mphase != .waitWrite || t.writeHeld then none else
-    -- `send_close` begins with `send_data`
-    if t.wbuf = [] then some (s.upd k (fun t => { t with mphase := .closing }))
-    else some ((s.upd k (fun t => { t with mphase := .closing, wbuf := [], sent := t.sent ++ t.wbuf })).emit k .data t.wbuf)
-  | .closeFrame k =>
-    let t := s.st k
-    if s.dead.isSome || !k.valid s || t.mphase != .closing then none else
-    some { (s.upd k (fun t => { t with mphase := if k.conn then .wantPush else .joinA, txOpen := false,
-                                       sent := [], wlog := [] })).emit k .close [] with flushReq := true }
-  | .joinedA k =>
-    let t := s.st k
-    if s.dead.isSome || !k.valid s || t.mphase != .joinA || t.rphase != .done then none else
-    some (s.upd k (fun t => { t with mphase := .wantPush }))
-  | .push k =>
-    let t := s.st k
-    if s.dead.isSome || !k.valid s || t.mphase != .wantPush then none else
-    match capOfId (s.rng k.conn) k.id with
-    | none => none
-    | some cap =>
-      some { s.upd k (fun t => { t with mphase := .pushed }) with
-             qPushed := fun c x => if c = k.conn ∧ x = cap then s.qPushed c x ++ [k.id] else s.qPushed c x }
-  | .pop conn cap =>
-    if s.dead.isSome then none else
-    match s.qWait conn cap, s.qPushed conn cap with
-    | slot :: ws, id :: ids =>
-      some { s.upd ⟨conn, id⟩ (fun t => { t with mphase := .reserved slot }) with
-             qWait := fun c x => if c = conn ∧ x = cap then ws else s.qWait c x,
-             qPushed := fun c x => if c = conn ∧ x = cap then ids else s.qPushed c x }
-    | _, _ => none
-  | .sendOpen k =>
-    let t := s.st k
-    if s.dead.isSome || !k.valid s then none else
-    match t.mphase with
-    | .reserved slot =>
-      let s1 := { (s.upd k (fun t => { t with txOpen := true, sent := [], wlog := [] })).emit k .open [] with flushReq := true }
-      if k.conn then some (s1.upd k (fun t => { t with mphase := .joinC slot }))
-      else some (handover s1 k slot)
-    | _ => none
-  | .joinedC k =>
-    let t := s.st k
-    if s.dead.isSome || !k.valid s || t.rphase != .done then none else
-    match t.mphase with
-    | .joinC slot => some (handover s k slot)
-    | _ => none
-  | .doFlush =>
-    if s.dead.isSome || !s.flushReq then none else
-    some { s with flushReq := false, flushed := s.out.length }
-  | .appOpen slot conn cap =>
-    if s.slots slot != .free || (rangeOfCap (s.rng conn) cap).isNone then none else
-    some { s.setSlot slot (.waiting conn cap) with
-           qWait := fun c x => if c = conn ∧ x = cap then s.qWait c x ++ [slot] else s.qWait c x,
-           slotList := s.slotList ++ [slot] }
-  | .appRead slot n =>
-    match s.slots slot with
-    | .held k true _ =>
-      if (s.st k).pendR.isSome then none else
-      some (s.upd k (fun t => { t with pendR := some ⟨slot, n, []⟩ }))
-    | _ => none
-  | .readStep k =>
-    let t := s.st k
-    match t.pendR with
-    | none => none
-    | some p =>
-      if t.closeRecv then some (finishRead s k p) else
-      match t.cache with
-      | some f => some (readFrame (s.upd k (fun t => { t with cache := none })) k p f)
-      | none =>
-        match t.queue with
-        | f :: q => some (readFrame (s.upd k (fun t => { t with queue := q, taken := t.taken ++ [(f.kind, f.data)] })) k p f)
-        | [] => if s.dead.isSome then some (finishRead s k p) else none   -- "Transport termination is equivalent to EOS"
-  | .appWrite slot bytes =>
-    match s.slots slot with
-    | .held k _ true =>
-      if (s.st k).pendW.isSome then none else
-      some (s.upd k (fun t => { t with pendW := some ⟨slot, bytes⟩, wlog := t.wlog ++ bytes }))
-    | _ => none
-  | .writeStep k =>
-    let t := s.st k
-    match t.pendW with
-    | none => none
-    | some p =>
-      if p.rest = [] then some ((s.upd k (fun t => { t with pendW := none })).log (.wrote p.slot true)) else
-      -- `if self.0.buffer.capacity() == 0 { self.0.send_data(ctx).await?; }`
-      if t.wbuf.length = s.cfg.wfs ∧ t.wbuf ≠ [] then
-        if s.dead.isSome then some ((s.upd k (fun t => { t with pendW := none })).log (.wrote p.slot false))
-        else some ((s.upd k (fun t => { t with wbuf := [], sent := t.sent ++ t.wbuf })).emit k .data t.wbuf)
-      else
-        -- `offset += self.0.buffer.push(&buf[offset..])`
-        let n := min (s.cfg.wfs - t.wbuf.length) p.rest.length
-        if n = 0 then none      -- write_frame_size = 0: the Rust loop spins forever without making progress
-        else some (s.upd k (fun t => { t with wbuf := t.wbuf ++ p.rest.take n, pendW := some { p with rest := p.rest.drop n } }))
-  | .appFlush slot =>
-    match s.slots slot with
-    | .held k _ true =>
-      let t := s.st k
-      if t.pendW.isSome then none else
-      if t.wbuf = [] then some ({ s with flushReq := true }.log (.wrote slot true))
-      else if s.dead.isSome then some (s.log (.wrote slot false))
-      else some ({ (s.upd k (fun t => { t with wbuf := [], sent := t.sent ++ t.wbuf })).emit k .data t.wbuf with
-                   flushReq := true }.log (.wrote slot true))
-    | _ => none
-  | .appDrop slot r w =>
-    match s.slots slot with
-    | .held k hr hw =>
-      let t := s.st k
-      if (r && hr && t.pendR.isSome) || (w && hw && t.pendW.isSome) then none else
-      some ((s.upd k (fun t => { t with readHeld := if r && hr then false else t.readHeld,
-                                         writeHeld := if w && hw then false else t.writeHeld })).setSlot slot
-             (.held k (hr && !r) (hw && !w)))
-    | _ => none
+  | .pump => stepPump s
+  | .recvOpenStart k => stepRecvOpenStart s k
+  | .discard k => stepDiscard s k
+  | .closeData k => stepCloseData s k
+  | .closeFrame k => stepCloseFrame s k
+  | .joinedA k => stepJoinedA s k
+  | .push k => stepPush s k
+  | .pop conn cap => stepPop s conn cap
+  | .sendOpen k => stepSendOpen s k
+  | .joinedC k => stepJoinedC s k
+  | .doFlush => stepDoFlush s
+  | .appOpen slot conn cap => stepAppOpen s slot conn cap
+  | .appRead slot n => stepAppRead s slot n
+  | .readStep k => stepReadStep s k
+  | .appWrite slot bytes => stepAppWrite s slot bytes
+  | .writeStep k => stepWriteStep s k
+  | .appFlush slot => stepAppFlush s slot
+  | .appDrop slot r w => stepAppDrop s slot r w
 
 /-- run a list of events; `none` as soon as one is not enabled -/
 def run? (s : State) : List Event → Option State
